@@ -125,7 +125,7 @@ class EstimateAlphaBeta(Contract):
         if not dev0 <= 1e-8:
             return {"confirmed": True, "detail": f"sample with two zeros and three observations below 1e-8: (log10 alpha, 1/beta) = ({np.log10(al)!r}, {1 / be!r}), "
                     f"weighted regression over the non-zero observations gives ({sol2[0]!r}, {sol2[1]!r})"}
-        for scale in (1.0, 3.0, 1.0 / n):
+        for scale in (1.0, 3.0, 1.0 / n, 1e-9, 1e-13, 1e9):  # "irrespective of how the weights are normalised"
             w = scale * (0.5 + rng.random(n))
             delta = 2.0
             al, be = E._estimate_alpha_beta(delta, x, p, w)
@@ -134,7 +134,7 @@ class EstimateAlphaBeta(Contract):
             A = np.c_[np.ones(n), ps] * np.sqrt(w)[:, None]
             sol = np.linalg.lstsq(A, xs * np.sqrt(w), rcond=None)[0]
             worst = max(worst, abs(np.log10(al) - sol[0]), abs(1 / be - sol[1]))
-        return {"confirmed": bool(worst > 1e-8), "detail": f"max deviation of (log10 alpha, 1/beta) from the weighted least-squares solution over weight scalings 1, 3, 1/n: {worst:.3e}"}
+        return {"confirmed": bool(worst > 1e-8), "detail": f"max deviation of (log10 alpha, 1/beta) from the weighted least-squares solution over weight scalings 1, 3, 1/n, 1e-9, 1e-13, 1e9: {worst:.3e}"}
 
 
 from vf.engine.values import Builtin, BoundMethod, FuncVal  # noqa: E402
